@@ -11,20 +11,18 @@ which is how garbler/evaluator/computer read an input.  `StrFacts` is what the
 code reads off an input string (`num` = outcome of `big.Int.SetString(s,0)`,
 given).  `GoVal` is a dynamic Go value handed to `Set`/`Sizes`.
 
-Status against /repo HEAD.  Four defects found by this check are repaired by
+Status against /repo HEAD.  Five defects found by this check are repaired by
 commits 66e4e03 (`mpc.Result` no longer rewrites its argument), 485d3fb
 (`bitLen` loop bound `i > 0`), 95af76e (`setInt` writes exactly `t.Bits` bits,
-sign-extended above bit 63) and 74f1961 (`Result` decodes arrays of arrays /
-slices / structs).  The model follows the repaired code and the corresponding
-theorems are full-strength; what was wrong is stated about explicitly named
-OLD definitions (`resultIntOld`, `bitLenOld`, `setIntOld`).
+sign-extended above bit 63), 74f1961 (`Result` decodes arrays of arrays /
+slices / structs) and 4a72a07 (`InstantiateWithSizes` hands a struct member the
+sizes that follow the ones consumed by the members before it).  The model
+follows the repaired code and the corresponding theorems are full-strength;
+what was wrong is stated about explicitly named OLD definitions
+(`resultIntOld`, `bitLenOld`, `setIntOld`, `Ty.instOld`).
 Still violated (a `…_witness` negation next to the `…_partial` theorem):
   for negative values `Sizes` = 64 while `InputSizes` = bit length of |v|,
-  which is too short for the two's complement form;
-  for a NESTED struct argument `InstantiateWithSizes` hands member `idx` the
-  tail `sizes[idx:]`, so a member that follows a nested struct with two or
-  more leaves is sized from an earlier input than the one it receives
-  (`C13_instantiate_nested_sizes_witness`).
+  which is too short for the two's complement form.
 
 The size-inference theorems with struct members (`C13_instantiate_…`,
 `C13_mainarg_…`) are about `Ty.inst` / `mainArg` of Model/IoInst.lean, lemmas
@@ -635,55 +633,102 @@ example : ∃ (t t' : Ty) (sizes : List Nat) (k : Nat) (hk : k < t.leaves.length
     t.leaves[k].sized = true ∧ t.concrete = false :=
   ⟨demoGarbler, demoGarblerInst, [3, 16, 16], 1, by decide, rfl, by decide, by decide⟩
 
-/-- Inferred width of an unsized integer member, flat struct — PARTIAL.  Full
-statement (false, see `C13_instantiate_nested_sizes_witness`): the k-th leaf of
-the flattened argument, which is the one that receives the k-th input string,
-is instantiated from `sizes[k]`.  Proved: member `k` of a struct is instantiated
-from `sizes[k:]`, so an unsized `int`/`uint` member at position `k` of the
-struct itself gets width `sizes[k]`; this is the k-th leaf exactly when no
-earlier member is a struct. -/
-theorem C13_instantiate_member_width_partial (c : Bool) (b n o : Nat) (fs : List Ty) (sizes : List Nat) (t' : Ty)
-    (h : (Ty.struct c b n o fs).inst sizes = .ok t') (k : Nat) (hk : k < fs.length)
-    (tag : Tag) (bk nk ok : Nat) (hf : fs[k] = .base tag false bk nk ok) (htag : tag = .int ∨ tag = .uint) :
-    ∃ c' b' o' fs' s off, t' = .struct c' b' n o' fs' ∧ sizes[k]? = some s ∧
-      fs'[k]? = some (.base tag true s nk off) := by
-  cases sizes with
-  | nil => simp [Ty.inst] at h
-  | cons s0 rest =>
-    simp only [Ty.inst] at h
-    cases hfi : instFields fs (s0 :: rest) 0 with
-    | error e => simp [hfi] at h
-    | ok p =>
-      obtain ⟨fs', total⟩ := p
-      simp [hfi] at h; subst h
-      obtain ⟨f', off, hf', hget⟩ := (instFields_member fs (s0 :: rest) 0 fs' total hfi).2 k hk
-      rw [hf] at hf'
-      cases hd : (s0 :: rest).drop k with
-      | nil => rw [hd] at hf'; simp [Ty.inst] at hf'
-      | cons s tl =>
-        rw [hd] at hf'
-        have hs : (s0 :: rest)[k]? = some s := by
-          have := List.getElem?_drop (xs := s0 :: rest) (i := k) (j := 0)
-          rw [hd] at this; simpa using this.symm
-        refine ⟨true, total, o, fs', s, off, rfl, hs, ?_⟩
-        rcases htag with rfl | rfl <;> simp [Ty.inst] at hf' <;> subst hf' <;> simpa [Ty.setOff] using hget
+/-- Inferred size of every unsized member, any nesting depth (the code since
+commit 4a72a07): whenever `InstantiateWithSizes` succeeds, the k-th leaf of the
+flattened argument — the one that receives the k-th input string — is what
+that leaf alone becomes when instantiated from `sizes[k:]` (up to the `Offset`
+bookkeeping field); in particular an unsized `int` / `uint` leaf gets width
+`sizes[k]`, and a slice leaf gets `⌈sizes[k] / w⌉` elements of its element
+width `w`.  With `C13_inferred_size_uint` / `C13_inferred_size_slice` (the size
+`InputSizes` infers is the number of bits written) this is "the inferred input
+sizes match what is written" for nested compound arguments. -/
+theorem C13_instantiate_member_width (t t' : Ty) (sizes : List Nat) (h : t.inst sizes = .ok t') :
+    t'.leaves.length = t.leaves.length ∧
+    ∀ k (hk : k < t.leaves.length),
+      (∃ l l', t.leaves[k].inst (sizes.drop k) = .ok l ∧ t'.leaves[k]? = some l' ∧ l'.setOff 0 = l.setOff 0) ∧
+      (∀ tag b n o, t.leaves[k] = .base tag false b n o → (tag = .int ∨ tag = .uint) →
+        ∃ s off, sizes[k]? = some s ∧ t'.leaves[k]? = some (.base tag true s n off)) ∧
+      (∀ c b n o el, t.leaves[k] = .elem .slice c b n o el →
+        ∃ s off, sizes[k]? = some s ∧
+          t'.leaves[k]? = some (.elem .slice true (ceilDiv s el.bits * el.bits) (ceilDiv s el.bits) off el)) := by
+  have H := Ty.inst_leaves t sizes t' h
+  have hlen : t'.leaves.length = t.leaves.length := by
+    have := congrArg List.length H
+    simpa [instLeavesSpec_length] using this
+  refine ⟨hlen, ?_⟩
+  intro k hk
+  have hk' : k < t'.leaves.length := by omega
+  have Hk := congrArg (fun l => l[k]?) H
+  simp only [List.getElem?_map, instLeavesSpec_get _ _ k hk, List.getElem?_eq_getElem hk', Option.map_some] at Hk
+  have hmain : ∃ l, t.leaves[k].inst (sizes.drop k) = .ok l ∧ t'.leaves[k].setOff 0 = l.setOff 0 := by
+    cases hi : t.leaves[k].inst (sizes.drop k) with
+    | error e => rw [hi] at Hk; simp [Except.map] at Hk
+    | ok l => rw [hi] at Hk; simp [Except.map] at Hk; exact ⟨l, rfl, Hk⟩
+  obtain ⟨l, hl, hoff⟩ := hmain
+  have hsz : ∀ s tl, sizes.drop k = s :: tl → sizes[k]? = some s := by
+    intro s tl hd
+    have := List.getElem?_drop (xs := sizes) (i := k) (j := 0)
+    rw [hd] at this; simpa using this.symm
+  refine ⟨⟨l, _, hl, List.getElem?_eq_getElem hk', hoff⟩, ?_, ?_⟩
+  · intro tag b n o hleaf htag
+    rw [hleaf] at hl
+    cases hd : sizes.drop k with
+    | nil => rw [hd] at hl; simp [Ty.inst] at hl
+    | cons s tl =>
+      rw [hd] at hl
+      have hl' : l = .base tag true s n o := by
+        rcases htag with rfl | rfl <;> simp [Ty.inst] at hl <;> exact hl.symm
+      subst hl'
+      refine ⟨s, (t'.leaves[k]).off, hsz s tl hd, ?_⟩
+      rw [List.getElem?_eq_getElem hk']
+      congr 1
+      cases hg : t'.leaves[k] <;> rw [hg] at hoff <;> simp [Ty.setOff] at hoff
+      obtain ⟨rfl, rfl, rfl, rfl⟩ := hoff
+      simp [Ty.off]
+  · intro c b n o el hleaf
+    rw [hleaf] at hl
+    cases hd : sizes.drop k with
+    | nil => rw [hd] at hl; simp [Ty.inst] at hl
+    | cons s tl =>
+      rw [hd] at hl
+      simp only [Ty.inst] at hl
+      split at hl
+      · simp at hl
+      · split at hl
+        · simp at hl
+        · simp at hl; subst hl
+          refine ⟨s, (t'.leaves[k]).off, hsz s tl hd, ?_⟩
+          rw [List.getElem?_eq_getElem hk']
+          congr 1
+          cases hg : t'.leaves[k] <;> rw [hg] at hoff <;> simp [Ty.setOff] at hoff
+          obtain ⟨rfl, rfl, rfl, rfl, rfl⟩ := hoff
+          simp [Ty.off]
 
-example : ∃ (fs : List Ty) (sizes : List Nat) (t' : Ty) (k : Nat) (hk : k < fs.length),
-    (Ty.struct true 80 0 0 fs).inst sizes = .ok t' ∧ fs[k] = .base .uint false 0 0 0 :=
-  ⟨[.base .uint false 0 0 0, .elem .array true 64 8 0 (.base .uint true 8 0 0), .base .uint true 16 0 64],
-    [3, 16, 16], demoGarblerInst, 0, by decide, rfl, rfl⟩
+/-- non-vacuity, nested: `struct { in struct { x uint; y uint }; b uint }` with sizes 1, 8, 16 -/
+example : ∃ (t t' : Ty) (sizes : List Nat) (k : Nat) (hk : k < t.leaves.length),
+    t.inst sizes = .ok t' ∧ t.leaves[k] = .base .uint false 0 0 0 ∧ t.leaves.length = 3 :=
+  ⟨.struct true 0 0 0 [.struct true 0 0 0 [.base .uint false 0 0 0, .base .uint false 0 0 0], .base .uint false 0 0 0],
+    .struct true 25 0 0 [.struct true 9 0 0 [.base .uint true 1 0 0, .base .uint true 8 0 1], .base .uint true 16 0 9],
+    [1, 8, 16], 2, by decide, rfl, rfl, rfl⟩
 
-/-- Negation witness of the full statement, nested struct argument
-`struct { in struct { x uint; y uint }; b uint }` with the inputs `1`, `255`,
-`65535` (sizes 1, 8, 16): member `b` is the third leaf and receives the third
-input, but it is instantiated from `sizes[1]` (the outer struct passes
-`sizes[idx:]` to member `idx`, and the inner struct has already read two
-entries): `b` becomes uint8 and `Parse` keeps only the low 8 bits of 65535. -/
-theorem C13_instantiate_nested_sizes_witness :
+/-- The defect repaired by commit 4a72a07, about the OLD struct loop
+(`Ty.instOld`: member `idx` received `sizes[idx:]`): for the nested struct
+argument `struct { in struct { x uint; y uint }; b uint }` with the inputs `1`,
+`255`, `65535` (sizes 1, 8, 16) member `b`, the third leaf, which receives the
+third input, was instantiated from `sizes[1]`: it became uint8 and `Parse`
+kept only the low 8 bits of 65535. -/
+theorem C13_old_instantiate_nested_sizes_witness :
     let t : Ty := .struct true 0 0 0 [.struct true 0 0 0 [.base .uint false 0 0 0, .base .uint false 0 0 0],
       .base .uint false 0 0 0]
-    (t.inst [1, 8, 16]).toOption.map (fun t' => t'.leaves.map Ty.bits) = some [1, 8, 8] ∧
+    (t.instOld [1, 8, 16]).toOption.map (fun t' => t'.leaves.map Ty.bits) = some [1, 8, 8] ∧
     (t.leaves.length = 3) := by
+  decide
+
+/-- …now correct: the same input on the repaired code, `b` is uint16 -/
+example :
+    let t : Ty := .struct true 0 0 0 [.struct true 0 0 0 [.base .uint false 0 0 0, .base .uint false 0 0 0],
+      .base .uint false 0 0 0]
+    (t.inst [1, 8, 16]).toOption.map (fun t' => t'.leaves.map Ty.bits) = some [1, 8, 16] := by
   decide
 
 /-- the three input strings `5`, `0xa0a1`, `0x3132` as the facts the code reads -/
